@@ -1,0 +1,27 @@
+//go:build verif
+
+// Contracts for the verifier in /verif (comment-only file; contributes no declarations).
+package shareddiscovery
+
+// C15: combining two statistics of one endpoint. Counts add, min/max times are the extremes, status-code counters add
+// pointwise; the average durations combine so that (average x count) - the total duration - adds (float32 is treated as
+// real arithmetic: "up to rounding" is not quantified).
+//@ func (Count).Combine
+//@   prop C15
+//@   modifies nothing
+//@   ensures[adds] result == a + b
+
+//@ func (EndpointAgg).Combine
+//@   prop C15
+//@   requires agg.Count >= 0 && aggB.Count >= 0
+//@   requires (agg.StatusCodes == nil || allocated(agg.StatusCodes)) && (aggB.StatusCodes == nil || allocated(aggB.StatusCodes))
+//@   modifies nothing
+//@   allocates map
+//@   ensures[count-adds] result.Count == agg.Count + aggB.Count
+//@   ensures[fresh-status-codes] result.StatusCodes != nil && allocated(result.StatusCodes) && !old(allocated(result.StatusCodes))
+//@   ensures[min-time] result.MinTime <= agg.MinTime && result.MinTime <= aggB.MinTime && (result.MinTime == agg.MinTime || result.MinTime == aggB.MinTime)
+//@   ensures[max-time] result.MaxTime >= agg.MaxTime && result.MaxTime >= aggB.MaxTime && (result.MaxTime == agg.MaxTime || result.MaxTime == aggB.MaxTime)
+//@   ensures[status-codes-union] forall(k, int, in(k, result.StatusCodes) <==> (in(k, agg.StatusCodes) || in(k, aggB.StatusCodes)))
+//@   ensures[status-codes-add] forall(k, int, in(k, result.StatusCodes) ==> result.StatusCodes[k] == ite(in(k, agg.StatusCodes), agg.StatusCodes[k], 0) + ite(in(k, aggB.StatusCodes), aggB.StatusCodes[k], 0))
+//@   ensures[total-duration-adds] result.Count > 0 ==> result.AverageDuration * real(result.Count) == agg.AverageDuration * real(agg.Count) + aggB.AverageDuration * real(aggB.Count)
+//@   ensures[total-spoe-duration-adds] result.Count > 0 ==> result.AverageTotalDuration * real(result.Count) == agg.AverageTotalDuration * real(agg.Count) + aggB.AverageTotalDuration * real(aggB.Count)
